@@ -3,7 +3,7 @@ import ast
 import itertools
 
 from ..core import Ob, Rule, AnalysisError, norm, KeyMaker
-from ..cfg import path_of
+from ..cfg import path_of, skips_in_iteration
 from .. import astutil as A
 from .. import guards
 
@@ -387,6 +387,26 @@ def r1_wiring(ctx):
     loops = [n for n in ast.walk(cfn) if isinstance(n, ast.For) and norm(n.iter) == 'self.loops']
     yield Ob('x12file:X12Reader.cleanup sweeps every open envelope', len(loops) == 1, ctx.floc(cfn),
              '' if len(loops) == 1 else 'no loop over self.loops')
+    if len(loops) == 1:
+        # no open envelope is passed over: every iteration reaches the dispatch on the envelope type (or a report)
+        g = ctx.cfg(cfn)
+        tv = {x.id for x in ast.walk(loops[0].target) if isinstance(x, ast.Name)}
+
+        def dispatches(n):
+            for x in g.walk_exprs(n):
+                if isinstance(x, ast.Compare) and isinstance(x.left, ast.Name) and x.left.id in tv and any(
+                        isinstance(c, ast.Constant) and c.value in HEADERS for c in x.comparators):
+                    return True
+                if isinstance(x, ast.Call) and (isinstance(x.func, ast.Attribute) and x.func.attr in want.values() or isinstance(x.func, (ast.Name, ast.Subscript))
+                                                and not (isinstance(x.func, ast.Name) and x.func.id in ('set', 'len', 'str', 'list', 'tuple', 'dict', 'int'))):
+                    return True
+                if isinstance(x, ast.Subscript) and isinstance(x.value, (ast.Dict, ast.Name)) and isinstance(x.slice, ast.Name) and x.slice.id in tv:
+                    return True
+            return False
+        skip = skips_in_iteration(g, loops[0], dispatches)
+        yield Ob('x12file:X12Reader.cleanup reports every open envelope, none is passed over', skip is None, ctx.floc(cfn, loops[0]),
+                 '' if skip is None else 'an iteration can end without looking at the envelope type (via %s): an envelope left open at the end '
+                 'of input draws no missing-trailer error' % ' -> '.join('L%s' % getattr(n.ast, 'lineno', '?') for n in skip if n.ast is not None)[:160])
 
 
 def r2_stack_safety(ctx):
